@@ -244,8 +244,9 @@ def run_c16(tier):
         for i, cs in enumerate(cases):
             if 'tags' in cs:
                 if r == 0:
-                    tags = cs['tags'] if tier == 'thorough' else cs['tags'][seed % 3::3]
-                    jobs.append({'kind': 'pop', 'seed': seed, 'case': {'tags': tags}})
+                    tags = cs['tags']
+                    for k in range(0, len(tags), 100):      # every tag, in parallel slices
+                        jobs.append({'kind': 'pop', 'seed': seed + k, 'case': {'tags': tags[k:k + 100]}})
                 continue
             jobs.append({'kind': 'pop', 'seed': seed * 1000003 + i + 7919 * r, 'case': cs})
     execute(ck, 'C16', jobs)
